@@ -532,7 +532,8 @@ def part_stephist(ctx, cuqi, thorough):
 def run_all(ctx, cuqi, thorough):
     """the three parts are generators: first they yield their model lines, then they are sent the model outputs
     (one `drive` call for all of them: every call waits for the shared build lock)"""
-    gens = [part_scales(ctx, cuqi, thorough), part_klhist(ctx, cuqi, thorough), part_stephist(ctx, cuqi, thorough)]
+    gens = [part_scales(ctx, cuqi, thorough), part_klhist(ctx, cuqi, thorough), part_stephist(ctx, cuqi, thorough),
+            part_ctor(ctx, cuqi, thorough)]
     blocks = [next(g) for g in gens]
     outs = ctx.lean.drive([l for b in blocks for l in b])
     pos = 0
@@ -542,3 +543,203 @@ def run_all(ctx, cuqi, thorough):
         except StopIteration:
             pass
         pos += len(b)
+
+
+# ----------------------------------------------------------------------------- part Q: constructor / setter glue
+def _dim_args():
+    """(token, python value) pairs for `_create_dimension`"""
+    A = [("N", None)]
+    for n in (-2, 0, 1, 2, 3, 5, 9):
+        A.append((f"i{n}", n))
+    A += [("i4", np.int64(4)), ("i7", np.int32(7)), ("ti3", (3,)), ("ti0", (0,)), ("tN", (None,)), ("tti3", ((3,),)), ("T0", ()), ("T2", (2, 3)), ("T3", (1, 2, 3))]
+    for v in ([0.0, 0.5, 1.0], [2.0], [], [-1.0, 0.25, 3.0, 8.0]):
+        A.append(("l" + qv(v), list(v)))
+        A.append(("l" + qv(v), np.array(v, dtype=float)))
+    A += [("l1,2,3", [1, 2, 3]), ("l1,2,3", np.array([1, 2, 3])), ("tl0,1/2,1", ([0.0, 0.5, 1.0],)), ("tl5,6", (np.array([5.0, 6.0]),))]
+    A += [("d0", np.array(2.0)), ("d2", np.zeros((2, 2))), ("d2", [[1.0, 2.0], [3.0, 4.0]]), ("td2", (np.zeros((2, 2)),)), ("d3", np.zeros((1, 2, 3)))]
+    A += [("o", 2.0), ("o", "x"), ("o", np.float64(3.0)), ("to", (2.5,)), ("o", {"a": 1})]
+    return A
+
+
+def _shp(o, names=("par_shape", "par_dim", "fun_shape", "fun_dim")):
+    out = []
+    for nm in names:
+        r = call(lambda: getattr(o, nm))
+        if isinstance(r, BaseException):
+            return None
+        out.append("None" if r is None else ((",".join(str(int(d)) for d in r) if len(r) else "_") if isinstance(r, tuple) else str(int(r))))
+    return "par={} pardim={} fun={} fundim={}".format(*out)
+
+
+def _gridstr(g):
+    return "None" if g is None else qv(np.asarray(g, dtype=float))
+
+
+def part_ctor(ctx, cuqi, thorough):
+    from cuqi.geometry import Continuous1D, Continuous2D, Image2D, Discrete, _DefaultGeometry1D, _DefaultGeometry2D
+    from cuqi.samples import Samples
+    from cuqi.array import CUQIarray
+    rng = np.random.RandomState(ctx.seed + 1316)
+    A = _dim_args()
+    lines, meta = [], []
+    stat = {"ctor1d": 0, "ctor1d_refused": 0, "ctor2d": 0, "ctor2d_refused": 0, "ctor2d_shapes_raise": 0, "image": 0, "image_non2d": 0,
+            "discrete": 0, "default": 0}
+    # --- 1-D
+    for tok, val in A:
+        for how in ("Continuous1D", "Default1D", "setter"):
+            lines.append(f"ctor1d {tok}")
+            meta.append(("1d", tok, val, how))
+    # --- 2-D: pairs, wrong lengths, no length
+    sub = [A[i] for i in (0, 2, 4, 5, 8, 10, 12, 15, 17, 19, 27, 31, 33, 36)]
+    pairs = [(a, b) for a in sub for b in sub] if thorough else [(sub[rng.randint(len(sub))], sub[rng.randint(len(sub))]) for _ in range(60)] + \
+        [(sub[3], sub[4]), (sub[4], sub[3]), (sub[0], sub[0]), (sub[3], sub[0])]
+    for (ta, va), (tb, vb) in pairs:
+        for cont in (tuple, list):
+            lines.append(f"ctor2d p:{ta}:{tb}")
+            meta.append(("2d", f"p:{ta}:{tb}", cont([va, vb]), "ctor"))
+    for tok, val in [("N", None), ("w", (2,)), ("w", (2, 3, 4)), ("w", []), ("n", 5), ("w", np.zeros(3))]:
+        lines.append(f"ctor2d {tok}")
+        meta.append(("2d", tok, val, "ctor"))
+    # --- Image2D
+    shapes = [(2, 3), (3, 2), (1, 4), (4, 1), (1, 1), (2, 3, 4), (2, 3, 1), (1, 2, 3), (2, 1, 1), (6,), (1,), (), (0, 3), (2, 2, 2, 2)]
+    for sh in shapes:
+        for order in ("C", "F", "X"):
+            for vis in (False, True):
+                d = int(np.prod(sh)) if len(sh) else 1
+                shs = ",".join(str(k) for k in sh) if len(sh) else "_"
+                lines.append(f"ctorimg {shs} {order} {int(vis)}")
+                meta.append(("img", sh, order, vis, None, None))
+                for X in (ints_(rng, (d,)), ints_(rng, (d, 2)), ints_(rng, (d, 1)), ints_(rng, (d + 1,))):
+                    lines.append(f"ctorimg {shs} {order} {int(vis)} par2fun {enc(X)}")
+                    meta.append(("img", sh, order, vis, "par2fun", X))
+                for X in (ints_(rng, sh if len(sh) else (1,)), ints_(rng, (tuple(sh) if len(sh) else (1,)) + (2,))):
+                    lines.append(f"ctorimg {shs} {order} {int(vis)} fun2par {enc(X)}")
+                    meta.append(("img", sh, order, vis, "fun2par", X))
+    # --- Discrete
+    for tok, val in [(f"i{n}", n) for n in (-2, 0, 1, 2, 3, 5)] + [("i4", np.int64(4)), ("s0", []), ("s1", ["n0"]), ("s3", ["n0", "n1", "n2"]),
+                                                                  ("x", ["a", 1]), ("x", [1.0]), ("o", 2.0), ("o", "ab"), ("o", None), ("o", ("a", "b"))]:
+        lines.append(f"ctordisc {tok}")
+        meta.append(("disc", tok, val))
+    # --- default geometries
+    for sh in [(5,), (3, 5), (2, 3, 5), (0, 5), (1, 1), (4, 1), (1, 7)]:
+        lines.append("defgeom S " + ",".join(str(k) for k in sh)); meta.append(("def", "S", sh))
+    for sh in [(), (4,), (0,), (1,)]:
+        lines.append("defgeom A " + (",".join(str(k) for k in sh) if sh else "_")); meta.append(("def", "A", sh))
+    outs = yield lines
+
+    for mt, out in zip(meta, outs):
+        if mt[0] == "1d":
+            _, tok, val, how = mt
+            stat["ctor1d"] += 1
+            desc = {"class": how, "grid_arg": short(repr(val), 60)}
+            ctx.case("ctor-1d", desc)
+            if how == "setter":
+                with quiet():
+                    o = Continuous1D(3)
+                r = call(lambda: setattr(o, "grid", val))
+                o = r if isinstance(r, BaseException) else o
+            else:
+                o = call(lambda: (Continuous1D if how == "Continuous1D" else _DefaultGeometry1D)(val))
+            impl = "err" if isinstance(o, BaseException) else f"grid={_gridstr(o.grid)} {_shp(o)}"
+            stat["ctor1d_refused"] += int(impl == "err")
+            key = f"ctor:{how}:{tok[:1]}"
+            if impl != out:
+                ctx.disagree(key, desc, out[:100], impl[:100], "constructor / reported shapes differ from the model")
+            if impl != "err" and o.grid is not None:
+                n = len(o.grid)
+                p = np.arange(1.0, n + 1)
+                f = call(o.par2fun, p.copy()); b = f if isinstance(f, BaseException) else call(o.fun2par, f)
+                if isinstance(b, BaseException) or np.shape(f) != tuple(o.fun_shape) or np.shape(b) != tuple(o.par_shape) or not np.array_equal(b, p) \
+                        or o.par_dim != n or o.fun_dim != n:
+                    ctx.fail(key, desc, f"shapes ({n},), identity maps", short(repr((f, b))), "reported shapes / maps of the constructed 1-D geometry")
+        elif mt[0] == "2d":
+            _, tok, val, _ = mt
+            stat["ctor2d"] += 1
+            desc = {"grid_arg": short(repr(val), 80)}
+            ctx.case("ctor-2d", desc)
+            o = call(lambda: Continuous2D(val))
+            if isinstance(o, BaseException):
+                impl = "err"; stat["ctor2d_refused"] += 1
+            elif o.grid is None:
+                impl = f"grid=None {_shp(o)}"
+            else:
+                sh = _shp(o)
+                stat["ctor2d_shapes_raise"] += int(sh is None)
+                impl = f"grid={_gridstr(o.grid[0])};{_gridstr(o.grid[1])} {sh if sh is not None else 'shapes-err'}"
+            key = "ctor:Continuous2D:" + tok[:1]
+            if impl != out:
+                ctx.disagree(key, desc, out[:120], impl[:120], "grid setter / reported shapes differ from the model")
+            if impl != "err" and o.grid is not None and o.grid[0] is not None and o.grid[1] is not None:
+                a, b = len(o.grid[0]), len(o.grid[1])
+                bad = o.par_shape != (a * b,) or o.par_dim != a * b or o.fun_shape != (a, b) or o.fun_dim != a * b
+                if a * b > 0:
+                    p = np.arange(1.0, a * b + 1)
+                    f = call(o.par2fun, p.copy()); bk = f if isinstance(f, BaseException) else call(o.fun2par, f)
+                    bad = bad or isinstance(bk, BaseException) or not np.array_equal(np.ravel(bk), p) or (a != 1 and b != 1 and np.shape(f) != (a, b))
+                if bad:
+                    ctx.fail(key, desc, f"par ({a * b},) fun ({a},{b}), round trip", "differs", "shapes / round trip of the constructed Continuous2D")
+        elif mt[0] == "img":
+            _, sh, order, vis, op, X = mt
+            stat["image"] += 1; stat["image_non2d"] += int(len(sh) != 2)
+            desc = {"im_shape": list(sh), "order": order, "visual_only": vis, "op": op, "input_shape": None if X is None else list(X.shape)}
+            ctx.case("ctor-image", desc)
+            o = call(lambda: Image2D(sh, order=order, visual_only=vis))
+            strict = len(sh) == 2 and order in ("C", "F")      # elsewhere WHEN/whether misuse is refused is not the property's business
+            key = f"ctor:Image2D:{'2d' if len(sh) == 2 else 'non2d'}:{order}:{op or 'shapes'}"
+            if isinstance(o, BaseException):
+                if out != "err" and strict:
+                    ctx.disagree(key, desc, out[:80], repr(o)[:80], "constructor refuses")
+                    ctx.fail(key, desc, "Image2D constructed", repr(o)[:80], "a 2-axis image geometry cannot be constructed")
+                continue
+            if op is None:
+                impl = _shp(o)
+                if impl != out and (strict or impl is not None):
+                    ctx.disagree(key, desc, out[:100], str(impl)[:100], "reported shapes differ from the model")
+                    d = int(np.prod(sh))
+                    if o.par_shape != (d,) or o.par_dim != d or o.fun_dim != d:
+                        ctx.fail(key, desc, f"par ({d},) dims {d}", str(impl), "par_shape / par_dim / fun_dim are not the product of im_shape")
+                continue
+            y = call(getattr(o, op), X.copy())
+            m, im = parse_arr(out), canon(y)
+            if im == "raise" and not strict:
+                continue
+            same_ = (m == im) if (isinstance(m, str) or isinstance(im, str)) else (m[0] == im[0] and all(Fraction(b) == a for a, b in zip(m[1], im[1])))
+            if not same_:
+                ctx.disagree(key, desc, short(out), short(im), "map of the constructed image geometry differs from the model")
+                if strict and not vis and X.shape[0] == int(np.prod(sh)) and op == "par2fun" and X.ndim == 1:
+                    bk = call(o.fun2par, y) if not isinstance(y, BaseException) else y
+                    if isinstance(bk, BaseException) or not np.array_equal(np.ravel(bk), X):
+                        ctx.fail(key, {**desc, "p": X.tolist()}, X.tolist(), short(repr(bk)), "fun2par(par2fun(p)) != p")
+        elif mt[0] == "disc":
+            _, tok, val = mt
+            stat["discrete"] += 1
+            desc = {"variables": short(repr(val), 60)}
+            ctx.case("ctor-discrete", desc)
+            o = call(lambda: Discrete(val))
+            impl = "err" if isinstance(o, BaseException) else "vars={} {}".format(",".join(o.variables) if len(o.variables) else "_", _shp(o))
+            key = "ctor:Discrete:" + tok[:1]
+            if impl != out:
+                ctx.disagree(key, desc, out[:100], impl[:100], "variables / reported shapes differ from the model")
+            if impl != "err":
+                n = len(o.variables)
+                p = np.arange(1.0, n + 1)
+                if o.par_shape != (n,) or o.fun_shape != (n,) or o.par_dim != n or o.fun_dim != n or not np.array_equal(o.fun2par(o.par2fun(p)), p):
+                    ctx.fail(key, desc, f"({n},)", str(_shp(o)), "shapes / identity maps of Discrete")
+        else:
+            _, k, sh = mt
+            stat["default"] += 1
+            desc = {"container": "Samples" if k == "S" else "CUQIarray", "array_shape": list(sh)}
+            ctx.case("ctor-default-geometry", desc)
+            g = call(lambda: Samples(np.zeros(sh)).geometry if k == "S" else CUQIarray(np.zeros(sh)).geometry)
+            impl = "err" if isinstance(g, BaseException) else f"grid={_gridstr(g.grid)} {_shp(g)}"
+            key = f"ctor:default:{'Samples' if k == 'S' else 'CUQIarray'}:{len(sh)}d"
+            if impl != out:
+                ctx.disagree(key, desc, out[:100], impl[:100], "default geometry differs from the model")
+                want = int(np.prod(sh[:-1])) if k == "S" else (sh[0] if sh else None)
+                if len(sh) >= (2 if k == "S" else 1) and (isinstance(g, BaseException) or g.par_dim != want):
+                    ctx.fail(key, desc, f"default geometry of dimension {want}", impl[:80], "default geometry does not match the array")
+    ctx.extra_cov["ctor_stats"] = stat
+
+
+def ints_(rng, shape, lo=-9, hi=9):
+    return rng.randint(lo, hi + 1, size=shape).astype(float)
